@@ -133,54 +133,55 @@ sharness! {
     }
 }
 
-/// Replay / duplicates: after a (concrete) answer has been accepted, a second arbitrary packet -
-/// in particular the same packet again, or another answer to the same request - is not measured.
-/// (Two fully symbolic consecutive calls do not finish symbolic execution: > 11 min, 5 GB. The
-/// general statement follows by induction from `c08_accept`, which starts from an arbitrary
-/// state: acceptance needs a pending request and clears it.)
+/// Replay / duplicates. `c08_accept` shows, from ANY state, that a measurement needs a pending
+/// request and clears it, and that a packet that is not measured leaves the pending request as it
+/// was; so between two polls at most one packet is measured. This harness states the second half
+/// directly: in the state an acceptance leaves behind (no pending request, whatever the rest),
+/// no packet - the same one again, another answer carrying the old origin, anything - is
+/// measured or changes the source. (Two consecutive calls in one harness, even with a concrete
+/// first packet, do not finish symbolic execution: 8 GB after 8 min.)
 #[cfg(kani)]
-fn replay_second(src: &mut Src, id: u64, first: &[u8], p2: &[u8], t: [u64; 2]) {
-    let a2 = collect(src.handle_incoming(p2, th::ts_from_raw(t[0]), th::ts_from_raw(t[1])));
-    let n2 = sh::controller(src).n_meas;
-    assert!(a2.n == 0, "C08: no actions");
-    assert!(n2 == 2, "C08: a second packet after acceptance (replay/duplicate) was measured");
-    assert!(!sh::state(src).pending, "C08: identifier must be one-shot");
-    let same = p2[0] == first[0]
-        && be64(p2, 0) == be64(first, 0)
-        && be64(p2, 8) == be64(first, 8)
-        && be64(p2, 16) == be64(first, 16)
-        && be64(p2, 24) == be64(first, 24)
-        && be64(p2, 32) == be64(first, 32)
-        && be64(p2, 40) == be64(first, 40);
-    kani::cover!(same, "accepted packet replayed verbatim and ignored");
-    kani::cover!(!same && origin_field(p2) == id && mode_bits(p2) == 4 && stratum_byte(p2) == 1, "second answer to the same request ignored");
+fn replay_body(src: &mut Src, pre: &Pre, pkt: &[u8], old_id: u64) {
+    let before = sh::state(src);
+    let acts = collect(src.handle_incoming(pkt, th::ts_from_raw(1), th::ts_from_raw(2)));
+    let post = sh::state(src);
+    assert!(acts.n == 0, "C08: no actions");
+    assert!(sh::controller(src).n_meas == 0, "C08: a packet arriving after the request was answered (replay/duplicate) was measured");
+    assert!(post == before && !post.pending, "C08: a replayed packet changed the source");
+    kani::cover!(origin_field(pkt) == old_id && mode_bits(pkt) == 4 && stratum_byte(pkt) == 1 && version_expected(pre.pv, version_bits(pkt)), "well-formed answer carrying the already used origin is ignored");
 }
 
 sharness! {
     #[kani::unwind(12)]
     fn c08_replay() {
         stubs::symbolic_clock();
-        let mut p2 = any_pkt4();
+        let (mut src, pre) = any_source(PvClass::Any);
+        let mut p = any_pkt4();
         let b0: u8 = kani::any();
-        let t: [u64; 2] = kani::any();
-        let upgrading: bool = kani::any();
-        let id: u64 = 0x1122_3344_5566_7788;
-        let pv = if upgrading { ProtocolVersion::V4UpgradingToV5 { tries_left: 8 } } else { ProtocolVersion::V4 };
-        let mut src = mk_source(pv, th::poll_from_raw(4));
-        let base = tokio::time::Instant::now();
-        sh::set_pending(&mut src, Some((th::ts_from_raw(id), None, base + std::time::Duration::from_secs(5))));
-        // first: a concrete, valid v4 server answer (stratum 2) to the pending request
-        let mut first = Pkt4 { b: [0; 48], slack: [0; 8] };
-        first.set_b0(0x24);
-        first.b[1] = 2;
-        put_be64(&mut first.b, 24, id);
-        let a1 = collect(src.handle_incoming(first.bytes(), th::ts_from_raw(1), th::ts_from_raw(2)));
-        assert!(a1.n == 0 && sh::controller(&src).n_meas == 2, "C08: the genuine answer is accepted once");
+        let old_id: u64 = kani::any();
+        kani::assume(!pre.has_pending);
         let mut run = |v: u8| {
-            p2.set_b0(v);
-            replay_second(&mut src, id, first.bytes(), p2.bytes(), t);
+            p.set_b0(v);
+            replay_body(&mut src, &pre, p.bytes(), old_id);
         };
         for_b0!(quick, b0, run);
+    }
+}
+
+sharness! {
+    #[kani::unwind(30)]
+    fn c08_replay_v5() {
+        stubs::symbolic_clock();
+        let (mut src, pre) = any_source(PvClass::Any);
+        let mut p = any_pkt5();
+        let sel: u8 = kani::any();
+        let old_id: u64 = kani::any();
+        kani::assume(!pre.has_pending);
+        let mut run = |b0: u8, b12: u8, b14: u8, b15: u8, last: u8| {
+            p.set_hdr(b0, b12, b14, b15, last);
+            replay_body(&mut src, &pre, p.bytes(), old_id);
+        };
+        for_v5hdr!(quick, sel, run);
     }
 }
 
